@@ -718,6 +718,30 @@ def _run(ctx, rng, lib, d):
             other = G.relabel(truth, rng.sample(range(p), p))
         small = math.factorial(p) ** n <= 3000
         lib.block(truth, other, relabels=(35 if p == 3 else (8 if quick else 40)), spec=small and it % 3 == 0)
+    # long, error-dense polyploid blocks: the decomposition must stay "fewest switches+flips, then fewest flips" however many
+    # flips the block holds (the cost pair handed to the calculator has to grow with the block).  The definition oracle
+    # costs ~5 ms on such blocks, so a cheap screen runs first: the calculator itself with a cost pair far beyond any
+    # block length; only blocks on which compare_block reports something else go to the oracle (none, if the code is right).
+    n_long = (4000 if quick else 40000) * scale
+    screened = 0
+    for it in range(n_long):
+        p = rng.choice([3, 3, 3, 4])
+        n = rng.choice([14, 18, 24, 32, 48, 64])
+        truth = G.truth_haps(rng, p, n)
+        other = G.perturb(rng, truth, rng.choice([0.0, 0.1, 0.3, 0.5]), rng.choice([0.5, 0.9, 1.0]), 0.0)
+        a, b = [hstr(h) for h in truth], [hstr(h) for h in other]
+        ctx.evaluated()
+        try:
+            e = lib.C.compare_block(a, b)
+            big = 1000 * p * n
+            ref = lib.C.compute_switch_flips_poly(a, b, switch_cost=big, flip_cost=big + 1)
+            same = (e.switch_flips.switches, e.switch_flips.flips) == (ref.switches, ref.flips)
+        except Exception:
+            same = False
+        if not same:
+            screened += 1
+            lib.block(truth, other, relabels=0)
+    ctx.dist("long_dense_poly_blocks_sent_to_oracle", screened)
     # exhaustive: triploid blocks of 2 positions, all het columns on both sides
     if not quick:
         cols = [c for c in itertools.product((0, 1), repeat=3) if 0 < sum(c) < 3]
